@@ -205,5 +205,6 @@ def make_replay(main_fn):
       except (Violation, AssertionError, mj.MjError) as e:
         ck.violation('%s: %s' % (type(e).__name__, e), dict(check=name, case=c), bucket=getattr(e, 'bucket', None) or name)
     ck.run_hypothesis = run_one
+    ck._replaying = True
     main_fn(ck)
   return replay
